@@ -54,6 +54,10 @@ pub trait Prop {
     /// whether a worker that stops making progress is a violation of *this* property
     /// (C06/C08 speak about panics and memory; a stall there is C07's to report)
     const STALL_IS_VIOLATION: bool = true;
+    /// a violation that does not recur when its case is replayed in a fresh process: normally a
+    /// harness error (no verdict). For a property that IS about determinism the difference between
+    /// the two executions is the violation itself.
+    const UNREPRODUCIBLE_IS_VIOLATION: bool = false;
     /// upper bound on concurrently running workers (memory-heavy checks)
     const MAX_WORKERS: usize = 16;
     fn count(tier: Tier) -> u64;
@@ -764,9 +768,13 @@ pub fn check_main<P: Prop>(tier: Tier, seed: u64, workers: usize, extra: Option<
         }
         // verify the replay reproduces (twice for process-level outcomes)
         let stall_kind = is_stall(&f.violation.invariant);
-        let tries = if stall_kind { 3 } else if process_level { 2 } else { 1 };
+        // for a property about determinism a result that varies between executions is the
+        // violation: its replay is given six executions and must recur in at least one
+        let varies_ok = P::UNREPRODUCIBLE_IS_VIOLATION && !stall_kind && !process_level;
+        let tries = if stall_kind { 3 } else if process_level { 2 } else if varies_ok { 6 } else { 1 };
         let mut ok = true;
         let mut stall_seen = false;
+        let mut recurred = 0u32;
         for _ in 0..tries {
             if stall_kind && stall_seen {
                 break;
@@ -781,7 +789,10 @@ pub fn check_main<P: Prop>(tier: Tier, seed: u64, workers: usize, extra: Option<
                     if same && stall_kind {
                         stall_seen = true;
                     }
-                    if !same && !stall_kind {
+                    if same {
+                        recurred += 1;
+                    }
+                    if !same && !stall_kind && !varies_ok {
                         ok = false;
                     }
                 }
@@ -795,6 +806,12 @@ pub fn check_main<P: Prop>(tier: Tier, seed: u64, workers: usize, extra: Option<
         // exactly, the threshold crossing is given three chances
         if stall_kind && !stall_seen {
             ok = false;
+        }
+        if varies_ok {
+            ok = ok && recurred > 0;
+            if ok && recurred < tries {
+                println!("NOTE: the replay below recurred in {recurred} of {tries} executions: the library's result varies between executions of the same case");
+            }
         }
         if ok {
             println!("VIOLATION property={} replay={}", P::ID, use_path.display());
